@@ -217,10 +217,10 @@ func runC01(r *Run) {
 	r.Nontrivial = true
 
 	type dirRun struct {
-		name string
+		name  string
 		w, rd *websocket.Conn
-		msgs []sentMsg
-		got  int
+		msgs  []sentMsg
+		got   int
 	}
 	dirs := []*dirRun{{"c2s", cli, srv, c2s, 0}, {"s2c", srv, cli, s2c, 0}}
 	for _, d := range dirs {
